@@ -182,6 +182,13 @@ Definition convert (f : family) (a b : crow) (c : Z) : Z :=
   end.
 
 (* ---------------------------------------------------------------- helpers for statements and drivers *)
+(* conversion.rs:23-31 as a function of the three channel values (luma888 c = lumaf (r c) (g c) (b c)) *)
+Definition lumaf (r g b : Z) : Z := as_u8 ((r * luma_wr + g * luma_wg + b * luma_wb + luma_round) / luma_div).
+(* the luma that the rgb -> gray / rgb -> binary conversions compute for a colour c of row a:
+   channels scaled to 8 bits (Rgb888::from), then luma() *)
+Definition luma_via (a : crow) (c : Z) : Z :=
+  lumaf (convert_channel (max_r a) 255 (get_r a c)) (convert_channel (max_g a) 255 (get_g a c))
+        (convert_channel (max_b a) 255 (get_b a c)).
 (* number of bits a colour of row t occupies in its raw value *)
 Definition used_bits (t : crow) : Z :=
   match c_kind t with KRgb _ r g b => r + g + b | _ => bpp t end.
